@@ -1,0 +1,50 @@
+//! Verification hooks (compiled only with `--cfg riscv_analysis_verif`).
+//!
+//! A per-thread logical step counter. Every unbounded loop of the analyzer
+//! calls [`tick`] once per iteration. A simulation harness can read the
+//! counts (its stand-in for simulated time) and set a budget that turns a
+//! non-terminating loop into a panic carrying [`VerifBudgetExceeded`].
+
+use std::cell::RefCell;
+use std::collections::BTreeMap;
+
+/// Panic payload used when a site passes the configured budget.
+#[derive(Debug, Clone)]
+pub struct VerifBudgetExceeded(pub &'static str);
+
+struct State {
+    counts: BTreeMap<&'static str, u64>,
+    budget: u64,
+}
+
+thread_local! {
+    static STATE: RefCell<State> = RefCell::new(State {
+        counts: BTreeMap::new(),
+        budget: u64::MAX,
+    });
+}
+
+/// Count one iteration of the loop named `site`.
+pub fn tick(site: &'static str) {
+    let over = STATE.with(|s| {
+        let mut s = s.borrow_mut();
+        let budget = s.budget;
+        let c = s.counts.entry(site).or_insert(0);
+        *c += 1;
+        *c > budget
+    });
+    if over {
+        std::panic::panic_any(VerifBudgetExceeded(site));
+    }
+}
+
+/// Set the per-site budget for the current thread.
+pub fn set_budget(budget: u64) {
+    STATE.with(|s| s.borrow_mut().budget = budget);
+}
+
+/// Return and reset the counters of the current thread.
+#[must_use]
+pub fn take_counts() -> BTreeMap<&'static str, u64> {
+    STATE.with(|s| std::mem::take(&mut s.borrow_mut().counts))
+}
